@@ -104,7 +104,7 @@ def execute(ctx, case):
             s = derive.build(pos, neg, ep, en, sc, ec, case.get("via", "ctor"), case.get("_seed", 0))
         # relations are about the object under test: a derived object (bootstrap sample, swap of a sample) has its own content
         pos, neg, ep, en = np.asarray(s.pos), np.asarray(s.neg), int(s.nb_easy_pos), int(s.nb_easy_neg)
-        sc, ec = s.score_class.value, s.equal_class.value
+        sc, ec = monitors.cfg_of(s)
     if case["mode"] == "bootstrap":
         np.random.seed(case["_seed"])
         s.bootstrap_ci("eer", config=BootstrapConfig(nb_samples=12, bootstrap_method="quantile"))  # 12 eer() calls on resamples (ties!)
